@@ -57,16 +57,23 @@ def one(args):
             argv += ["--files"] + selnames
         # exactly the files whose names match one of the requested names without regard to case - ALL of them when several files carry that name
         new = [500 + j for j in range(len(files)) if selnames is None or case["names"][j].upper() in {n.upper() for n in selnames}]
-        cmd = {"tool": "util", "sw": case["sw"], "app": False, "named": True, "new": new, "srcn": len(files)}
+        cmd = {"tool": "util", "sw": case["sw"], "sw2": "", "app": False, "named": True, "new": new, "srcn": len(files)}
+        # one invocation, several targets: the same selection also goes to the other kinds of image (other, new paths); what lands at each of them is judged
+        # on its own - a file handed to one writer must reach the next writer unchanged
+        others = [x for x in ("cas", "dsk", "bin") if x != case["sw"] and (x != "bin" or len(files) == 1)] if case.get("multi") else []
+        for x in others:
+            argv += ["--to_" + x, os.path.join(W, "m." + x)]
         code, out = hostrun.run_main(file_util, argv)
-        out_recs.append(step_record(k * 2, cat, cmd, argv[2], code, out, None))
+        out_recs.append(step_record(k * 4, cat, cmd, argv[2], code, out, None))
+        for j, x in enumerate(others):
+            out_recs.append(step_record(k * 4 + 2 + j, cat, dict(cmd, sw=x), os.path.join(W, "m." + x), code, out, None))
         # convert back: the round trip must return the selected file set
         if case["sw"] in ("cas", "dsk") and os.path.exists(argv[2]) and new and os.path.getsize(argv[2]) > 0:
             back = "cas" if case["sw"] == "dsk" else "dsk"
             argv2 = [argv[2], "--to_" + back, os.path.join(W, "t2." + back)]
-            cmd2 = {"tool": "util", "sw": back, "app": False, "named": True, "new": new, "srcn": len(new)}
+            cmd2 = {"tool": "util", "sw": back, "sw2": "", "app": False, "named": True, "new": new, "srcn": len(new)}
             code2, out2 = hostrun.run_main(file_util, argv2)
-            out_recs.append(step_record(k * 2 + 1, cat, cmd2, argv2[2], code2, out2, None))
+            out_recs.append(step_record(k * 4 + 1, cat, cmd2, argv2[2], code2, out2, None))
         return out_recs
     finally:
         shutil.rmtree(W, ignore_errors=True)
@@ -87,7 +94,7 @@ def cases(rnd, n):
                 sel = rnd.choice([[0], [1], [0, len(names) - 1], [len(names) - 1]])
         out.append({"seed": rnd.randrange(1 << 30), "names": names, "srckind": srckind, "sw": sw, "select": sel,
                     "how": rnd.choice(["same", "upper", "lower", "swap"]), "lens": [rnd.choice([1, 20, 255, 256, 300, 2294, 2295, 2304, 5000]) for _ in range(3)] if k % 7 != 3 else [rnd.choice([30000, 20000, 52000, 16000, 100]) for _ in range(3)],   # every 7th: files of many granules
-                    "kinds": [rnd.choice([(2, 0), (2, 0), (0, 0), (1, 255), (2, 255), (1, 0), (0, 255), (3, 255)]) for _ in range(3)], "gapped": rnd.random() < 0.3})
+                    "kinds": [rnd.choice([(2, 0), (2, 0), (0, 0), (1, 255), (2, 255), (1, 0), (0, 255), (3, 255)]) for _ in range(3)], "gapped": rnd.random() < 0.3, "multi": k % 4 == 1})
     return out
 
 
@@ -126,22 +133,22 @@ def run(ctx):
     verd, st = tlc.bulk("Tr_Host", recs, nproc=6, min_chunk=30, heap="6g", timeout=3000)
     nv = 0
     for r in recs:
-        case = cs[r["id"] // 2]
+        case = cs[r["id"] // 4]
         stp = verd[r["id"]]["steps"][0]
-        cls = dict(stp["class"], srckind=case["srckind"] if r["id"] % 2 == 0 else case["sw"], how=case["how"] if case["select"] is not None else "all",
-                   lowernames=any(n != n.upper() for n in case["names"]), back=r["id"] % 2 == 1, gapped=bool(case["gapped"]),
+        cls = dict(stp["class"], srckind=case["srckind"] if r["id"] % 4 != 1 else case["sw"], how=case["how"] if case["select"] is not None else "all",
+                   lowernames=any(n != n.upper() for n in case["names"]), back=r["id"] % 4 == 1, multi=r["id"] % 4 >= 2, gapped=bool(case["gapped"]),
                    nonml=any(k != (2, 0) for k in [tuple(x) for x in case["kinds"]][:len(case["names"])]))
-        ctx.add_class("c16|" + "|".join(str(cls[x]) for x in ("srckind", "sw", "how", "lowernames", "back", "newn", "post", "gapped")))
+        ctx.add_class("c16|" + "|".join(str(cls[x]) for x in ("srckind", "sw", "how", "lowernames", "back", "newn", "post", "gapped", "multi")))
         for c in stp["failed"]:
             if c not in ("allowed", "newpath", "complete", "notraceback"):
                 continue
             item = {"clause": c, "class": cls, "symptom": {"exit": r["events"][0]["exit"]}}
-            if ctx.report(item, {"kind": "c16", "case": case, "stdout": r["events"][0]["stdout"], "judged_post": stp["post"], "step": "back" if r["id"] % 2 else "forward"}) == "violation":
+            if ctx.report(item, {"kind": "c16", "case": case, "stdout": r["events"][0]["stdout"], "judged_post": stp["post"], "step": {0: "forward", 1: "back"}.get(r["id"] % 4, "another target of the same invocation")}) == "violation":
                 nv += 1
     ctx.add_suite("conversions", len(recs), len(recs), time.time() - t0, {"violating_items": nv})
     ctx.sample({"case": cs[0], "judged": verd[recs[0]["id"]]["steps"][0]["post"]})
     ctx.cov["rule"] = ("source image {tape, disk} x file sets (upper / lower / mixed-case names, ML / BASIC / ASCII, boundary lengths) x target {tape, disk, binary} x selection "
-                       "{all, one, last, several, none} spelled as stored / upper / lower / case-swapped, and the conversion back to the source kind; run through file_util.py "
+                       "{all, one, last, several, none} spelled as stored / upper / lower / case-swapped, and the conversion back to the source kind; every 4th invocation names several targets (--to_cas, --to_dsk and, for a single file, --to_bin together) and each target is judged; run through file_util.py "
                        "in-process; the targets are parsed by the specification's readers and judged with Host!Allowed (exactly the selected files, in source order, identical "
                        "type / addresses / data; --to_bin only for a single-file image). distinct_nontrivial = conversion classes")
 
